@@ -344,9 +344,11 @@ def c_ortho_partial(pool, rng, t):
 
 
 def c_unary_overwrite(pool, rng, t):
-    k = int(rng.integers(0, 3))
-    name = ['transpose', 'conj', 'rank_transpose'][k]
-    fn = [lambda: t.transpose(overwrite=True), lambda: t.conj(overwrite=True), lambda: t.rank_transpose(overwrite=True)][k]
+    k = int(rng.integers(0, 5))
+    name = ['transpose', 'conj', 'rank_transpose', 'transpose', 'transpose'][k]
+    sub = sorted(set(int(i) for i in rng.integers(0, t.order, size=int(rng.integers(1, t.order + 1)))))
+    fn = [lambda: t.transpose(overwrite=True), lambda: t.conj(overwrite=True), lambda: t.rank_transpose(overwrite=True),
+          lambda: t.transpose(conjugate=True, overwrite=True), lambda: t.transpose(cores=sub, conjugate=bool(rng.integers(0, 2)), overwrite=True)][k]
     ok, r = call('TT.' + name, fn, prop=P)
     return name + '_overwrite', [r] if ok else [], False
 
